@@ -203,11 +203,13 @@ func doDump(p *core.Prog, what, fnSpec, match string) {
 		// functions it calls. Regenerate only when the reference tree changes.
 		type ent struct {
 			Params  []string `json:"params"`
+			Results int      `json:"results"`
 			Callees []string `json:"callees"`
 		}
 		out := map[string]ent{}
 		for _, f := range p.Prod {
 			var e ent
+			e.Results = f.Signature.Results().Len()
 			for _, q := range f.Params {
 				e.Params = append(e.Params, q.Name())
 			}
